@@ -1433,31 +1433,33 @@ func (u *Unit) assumeNotPrivate(st *State, from *Ptr, r T) {
 // result / result<i> / err for use in `at unlock:` clauses.
 func resultAllocs(fn *ssa.Function) map[*ssa.Alloc][]string {
 	out := map[*ssa.Alloc][]string{}
-	if fn.Recover == nil {
-		return out
-	}
-	for _, in := range fn.Recover.Instrs {
-		ret, ok := in.(*ssa.Return)
-		if !ok {
-			continue
-		}
-		for i, r := range ret.Results {
-			un, ok := r.(*ssa.UnOp)
+	for _, b := range fn.Blocks {
+		for _, in := range b.Instrs {
+			ret, ok := in.(*ssa.Return)
 			if !ok {
 				continue
 			}
-			al, ok := un.X.(*ssa.Alloc)
-			if !ok {
-				continue
+			for i, r := range ret.Results {
+				un, ok := r.(*ssa.UnOp)
+				if !ok {
+					continue
+				}
+				al, ok := un.X.(*ssa.Alloc)
+				if !ok || al.Comment != "" {
+					continue
+				}
+				if _, seen := out[al]; seen {
+					continue
+				}
+				names := []string{fmt.Sprintf("result%d", i)}
+				if len(ret.Results) == 1 {
+					names = append(names, "result")
+				}
+				if types.Identical(al.Type().(*types.Pointer).Elem(), types.Universe.Lookup("error").Type()) {
+					names = append(names, "err")
+				}
+				out[al] = names
 			}
-			names := []string{fmt.Sprintf("result%d", i)}
-			if len(ret.Results) == 1 {
-				names = append(names, "result")
-			}
-			if types.Identical(al.Type().(*types.Pointer).Elem(), types.Universe.Lookup("error").Type()) {
-				names = append(names, "err")
-			}
-			out[al] = names
 		}
 	}
 	return out
@@ -1482,8 +1484,8 @@ func (u *Unit) selem(E, sl, i T) T {
 	_, es := arrParts(row)
 	fn := "selem!" + smtName(string(es))
 	if !u.decls.Has(fn) {
-		u.decls.Add(fn, fmt.Sprintf("(declare-fun %s (%s Slice Int) %s)\n(assert (forall ((e %s) (s Slice) (i Int)) (! (= (%s e s i) (select (select e (sarr s)) (+ (soff s) i))) :pattern ((%s e s i)))))",
-			fn, E.Sort, es, E.Sort, fn, fn))
+		u.decls.Add(fn, fmt.Sprintf("(declare-fun %s (%s Slice Int) %s)\n(assert (forall ((e %s) (s Slice) (i Int)) (! (= (%s e s i) (select (select e (sarr s)) (+ (soff s) i))) :pattern ((%s e s i)))))\n(assert (forall ((e1 %s) (e2 %s) (s Slice) (i Int)) (! (=> (= (select e1 (sarr s)) (select e2 (sarr s))) (= (%s e1 s i) (%s e2 s i))) :pattern ((%s e1 s i) (select e2 (sarr s))))))",
+			fn, E.Sort, es, E.Sort, fn, fn, E.Sort, E.Sort, fn, fn, fn))
 	}
 	return app(es, fn, E, sl, i)
 }
